@@ -467,10 +467,12 @@ func (x *Exec) applyContract(fr *Frame, st *State, in ssa.Instruction, con *Cont
 			for _, m := range con.Modifies {
 				locs = append(locs, env.evalLoc(m.Expr)...)
 			}
+			// the callee may allocate: the new contents of the modified locations are bounded by the allocation watermark AFTER
+			// the call (bounding them by the watermark before it contradicts postconditions such as fresh(x.f))
+			x.bumpAlloc(st)
 			for _, l := range locs {
 				x.havocLoc(st, l)
 			}
-			x.bumpAlloc(st)
 		}
 		res = x.freshResult(st, resultType(sig), "res."+sanitize(key))
 		x.bindResults(names, sig, res)
@@ -636,6 +638,9 @@ func (x *Exec) atReturn(fr *Frame, st *State, rs []Val) {
 		env := x.specEnvAt(fr, st, fr.pre, names)
 		x.applyUses(fr, st, env, "return")
 		for i, e := range con.Ensures {
+			if e.Group != "" && e.Group != x.view {
+				continue // proved in its own view
+			}
 			f, skipped := x.evalLenient(fr, env, e)
 			if skipped {
 				continue
